@@ -46,7 +46,10 @@ TEXT = {
                    "components and the refusal codes, for every session state. Schedule clause, proved on a small concurrent model (Model/Attach.lean with duplicate refusal, one "
                    "transition per critical section): C12_conc_component_never_outlives_entity - for every interleaving of an entity's removal (RemoveEntity, then DeleteByEntityID) with any "
                    "number of component adds (EntityByID, Add, EntityByID again, Delete) nothing stays for an entity that is gone; C12_old_order_keeps_a_stale_component and "
-                   "C12_reorder_alone_is_not_enough are the kernel-checked interleavings of the code before the repair F24. Tied to the code by the skeleton facts of HandleEntityComponentAdd, "
+                   "C12_reorder_alone_is_not_enough are the kernel-checked interleavings of the code before the repair F24. One key of the store under concurrent adds and deletes "
+                   "(Model/AddOnce.lean, Props/C12Add.lean): C12_conc_add_accepted_once - for every interleaving, accepted adds = accepted deletes + (1 if the key is held), so two adds are "
+                   "never both accepted with no delete between; C12_split_add_accepts_twice is the interleaving of a store that looks up and inserts in two critical sections; that Add and "
+                   "Delete are one critical section under the write lock is Gen/AbsOrder.component_add_is_one_critical_section, on the regenerated facts. Tied to the code by the skeleton facts of HandleEntityComponentAdd, "
                    "HandleEntityDelete, leaveSession and by the exploration of the real handlers (blocks that set attachments against an entity's removal).",
              note=_std_note, technique=_tech),
  'C13': dict(level="C13_add_notify/_delete_notify/_update_notify give the exact recipients of component notifications as a function of the subscription set; "
